@@ -72,6 +72,11 @@ contract("HpcSubmitter._make_async_submitter", file=F, fresh_result=True,
              "result._mgr == self._hpc_mgr and result._status_collector == self._status_collector",
              "unchanged(AsyncJob.job_id, result) and unchanged(AsyncJob.g_is_batch, result) and unchanged(AsyncJob.name, result)",
          ],
+         trusted_ensures=[
+             # A-names (assumption, unchecked): the name <prefix>_batch_<index> of a new batch is not the name of any outstanding queue entry
+             # (batch indices are consumed once - proved above - and scheduler ids are numeric)
+             "forall(q, JobQueue, result.name not in q._outstanding_jobs)",
+         ],
          modifies=["self._batch_index", "AsyncJob.g_is_batch", "AsyncJob.name", "AsyncJob.return_code", "AsyncJob.g_done", "AsyncJob.blocking", "AsyncJob.g_launched",
                    "AsyncJob.g_canceled", "AsyncJob.cancel_on_blocking_job_failure",
                    "AsyncHpcSubmitter._mgr", "AsyncHpcSubmitter._status_collector", "AsyncHpcSubmitter._run_script",
